@@ -1,7 +1,7 @@
 ----------------------------- MODULE MC_C06_gas -----------------------------
 (* C06 on the gas service: fee collection and refunds need the gas collector,     *)
 (* ownership transfer the current owner; every principal as sole authoriser.        *)
-EXTENDS GasService, Json, SequencesExt
+EXTENDS GasService, Json, SequencesExt, AuthShapes
 VARIABLE st
 People == {"owner0", "col0", "bob", "mallory", "carol"}
 Auths == {{p} : p \in People} \cup {{}}
@@ -12,10 +12,18 @@ Acts(s) ==
     \cup {[name |-> n, receiver |-> rc, token |-> "sac", amt |-> 1, auth |-> au] :
         n \in {"CollectFees", "Refund"}, rc \in {"col0", "owner0", "gs"}, au \in {{}, {"col0"}, {"owner0"}, {"mallory"}}}
     \cup {[name |-> "TransferOwnership", new |-> n, auth |-> au] : n \in {"owner0", "bob", "col0"}, au \in Auths}
+    \* the migration window of the Upgradable interface is open (hidden from this module): every role check must
+    \* behave exactly as when it is closed
+    \cup {[name |-> "HookOpenWindow"]}
+    \* an entry that names the entry point but keeps only the arguments `keepArgs` (what require_auth_for_args with a subset of the
+    \* arguments would ask for) is not an authorisation of this exact call
+    \cup {[name |-> "Refund", receiver |-> "carol", token |-> "sac", amt |-> 1, auth |-> {}, scopedAuth |-> {s.collector}, keepArgs |-> ks] : ks \in ProperKeeps(3)}
+    \cup {[name |-> "CollectFees", receiver |-> "carol", token |-> "sac", amt |-> 1, auth |-> {}, scopedAuth |-> {s.collector}, keepArgs |-> ks] : ks \in ProperKeeps(2)}
+    \cup {[name |-> "TransferOwnership", new |-> "bob", auth |-> {}, scopedAuth |-> {s.owner}, keepArgs |-> <<>>]}
 InitState == [bal |-> [t \in Tokens |-> [x \in Accts |-> IF x = "gs" THEN 3 ELSE 0]], collector |-> "col0", owner |-> "owner0"]
 Init == st = InitState
 Next == \E a \in Acts(st) : st' = Apply(st, a).post
-Step(P(_, _, _)) == \A a \in Acts(st) : P(st, a, Apply(st, a))
+Step(P(_, _, _)) == \A a \in Acts(st) : a.name # "HookOpenWindow" => P(st, a, Apply(st, a))
 Holder(s, a) == IF a.name = "TransferOwnership" THEN s.owner ELSE s.collector
 OnlyHolder(s, a, r) == r.ok => Holder(s, a) \in a.auth
 Successor(s, a, r) == /\ r.post.collector = s.collector
